@@ -13,6 +13,9 @@ Inductive vop :=
 | OM (id arg val : N) (panicked : bool)     (* safe mutator *)
 | OL (which arg val : N) (panicked : bool). (* formerly safe, now unsafe mutator (replay of the fixed findings) *)
 
+(** one call of a constructor family on the case's input bytes ([Views.run_ctor] numbering) *)
+Inductive cobs := CO (fam arg : N) (o : N * list N).
+
 Record vcase := mkVC {
   vc_kind : N;                 (* 0 header 1 stdpath 2 onehop 3 info 4 hop 5 raw 6 udp packet 7 scmp packet
                                   8 udp datagram 9 scmp payload, 1000+ty typed scmp message *)
@@ -20,7 +23,8 @@ Record vcase := mkVC {
   vc_res : N * list N;         (* (1,[n]) | (0,[1;at;required;actual]) | (0,[2;code]) | (99,[]) *)
   vc_ops : list vop;
   vc_final : list (N * N);     (* view bytes after the last operation, run-length encoded *)
-  vc_abs : list (N * N) }.     (* every slice handed out by an accessor / *_mut, as [lo, hi) from the view start *)
+  vc_abs : list (N * N);       (* every slice handed out by an accessor / *_mut, as [lo, hi) from the view start *)
+  vc_ctors : list cobs }.      (* what every constructor family did on the same input bytes *)
 
 Definition kind_of (c : N) : vkind :=
   match c with
@@ -83,7 +87,9 @@ Definition verdict (c : vcase) : N :=
       (ok, list_eqb N.eqb v' (rle_expand (vc_final c)))
     | _ => (match vc_ops c with [] => true | _ => false end, true)
     end in
-  let mismatch := mismatch_c || negb ops_ok || negb final_ok in
+  let ctor_mismatch :=
+    existsb (fun c => match c with CO fam arg o => negb (res_eqb (run_ctor k fam arg b) o) end) (vc_ctors c) in
+  let mismatch := mismatch_c || negb ops_ok || negb final_ok || ctor_mismatch in
   (* property oracles, on what the implementation did *)
   let size_bad := match vc_res c with (1, [n]) => negb (size_within n (blen b)) | (99, _) => true | _ => false end in
   let n_obs := match vc_res c with (1, [n]) => n | _ => 0 end in
@@ -91,7 +97,10 @@ Definition verdict (c : vcase) : N :=
   let len_changed := match vc_res c with
                      | (1, [n]) => negb (N.of_nat (length (rle_expand (vc_final c))) =? n) | _ => false end in
   let panicked := any_panic (vc_ops c) && negb (has_legacy (vc_ops c)) in
-  let violation := size_bad || oob || len_changed || panicked in
+  let req_obs := match vc_res c with (1, [n]) => Some n | _ => None end in
+  let ctor_bad :=
+    existsb (fun c => match c with CO fam arg o => negb (ctor_obs_ok (blen b) req_obs fam arg o) end) (vc_ctors c) in
+  let violation := size_bad || oob || len_changed || panicked || ctor_bad in
   (if mismatch then 1 else 0) + (if violation then 2 else 0).
 
 Definition verdicts (cs : list vcase) : list N := map verdict cs.
